@@ -98,7 +98,7 @@ func runC17(r *R) {
 				k, _ := ConstInt(bo.Y)
 				okDec = k == 1
 			}
-			g, _ := Guard(fn, nil, c.(ssa.Instruction), NotC(LtC("maxSymlinks < 0", Is(ms), ConstIntVP(0))))
+			g, _ := Guard(fn, nil, c.(ssa.Instruction), GeC("maxSymlinks < 0", Is(ms), ConstIntVP(0)))
 			after := len(rl) == 1 && rl[0].Block().Dominates(c.Block())
 			r.Check(okDec && g && after, "C17-R2", fn, "walkMount(dest, target, maxSymlinks-1, …)", c.Pos(), "counter decremented, guarded by NOT maxSymlinks<0", "symlink chains/cycles are followed without a decreasing bound")
 			below, isC := ConstBool(a[3])
@@ -137,7 +137,7 @@ func runC17(r *R) {
 	}
 
 	// ---- R3
-	r.Rule("C17-R3", "errors abort: out-of-mount ⇒ error; non-tmp/collection mounts ⇒ error; unsupported file modes ⇒ error; errors of walk*/copyFile/Flush/Mkdir(≠ErrExist)/FileSystem make Copy fail; Copy returns MarshalManifest(\".\") itself", 8)
+	r.Rule("C17-R3", "errors abort: out-of-mount ⇒ error; non-tmp/collection mounts ⇒ error; unsupported file modes ⇒ error; errors of walk*/copyFile/Flush/Mkdir(≠ErrExist)/FileSystem make Copy fail; Copy returns MarshalManifest(\".\") itself", 4)
 	if fn := r.NeedFn("C17-R3", cpT+"Copy"); fn != nil {
 		var mm ssa.CallInstruction
 		for _, c := range CallsMatching(fn, func(n string, c *ssa.CallCommon) bool { return bareName(n) == "MarshalManifest" }) {
@@ -209,7 +209,7 @@ func runC17(r *R) {
 	}
 
 	// ---- R4
-	r.Rule("C17-R4", "collection mounts by reference: cp.manifest += Extract(srcRelPath, dest).Text of the mount's manifest (read-only: fetched by PortableDataHash); no file of such a mount is queued for copying", 2)
+	r.Rule("C17-R4", "collection mounts by reference: cp.manifest += Extract(srcRelPath, dest).Text of the mount's manifest (read-only: fetched by PortableDataHash); no file of such a mount is queued for copying", 1)
 	if fn := r.NeedFn("C17-R4", cpT+"walkMount"); fn != nil {
 		n := 0
 		for _, st := range StoresToField(fn, cr+".copier", "manifest") {
@@ -266,7 +266,7 @@ func runC17(r *R) {
 	}
 
 	// ---- R6
-	r.Rule("C17-R6", "manifest.Extract subtree filter: path-prefix semantics; every stream scanned (shared with C10-R6)", 2)
+	r.Rule("C17-R6", "manifest.Extract subtree filter: path-prefix semantics; every stream scanned (shared with C10-R6)", 1)
 	extractFilterRule(r, "C17-R6")
 }
 
